@@ -19,6 +19,7 @@ Oracle: model-free — (a) counts straight from the XML (nodes, <b>, sum of Char
 from __future__ import annotations
 
 import json
+import os
 import warnings
 from fractions import Fraction
 from pathlib import Path
@@ -147,13 +148,22 @@ def check_file(ctx, path, source, variant, text=None, want_stats=None, session=N
                          {"source": source, "variant": variant, "fragment": f["id"], "diff": diff,
                           "fragment_xml": ET.tostring(f["elt"], encoding="unicode")[:2500]},
                          str(impl)[:600], str(model)[:600])
+        # a parsed molecule has coordinates: NaN / inf for a drawing whose atoms all sit at different places is a defect
+        x_ = p.by_frag.get(f["id"], (None, None))[1]
+        if x_ is not None and not finite(x_):
+            pts = [n.get("p") for n in f["elt"].iter("n") if n.get("p")]
+            if len(set(pts)) == len(pts) and not dc["malformed"]:
+                ctx.violation("C13:non-finite-coordinates", f"{source} [{variant}] fragment {f['id']}: the parsed molecule has NaN / infinite coordinates",
+                              rp({"fragment": f["id"]}))
+            p.by_frag[f["id"]] = (impl, None)       # nothing geometric can be asked of it
         # (a) counts straight from the XML
         if not isinstance(impl, str) and not dc["malformed"]:
             oracle_counts(ctx, impl, dc, rp({"fragment": f["id"]}))
             # (absolute direction is evaluated on the drawings as bundled and their variants, not on the randomly
             #  re-drawn stereo marks, which put marks on ends that are not stereogenic)
             if dc["joins"] == 0 and not variant.startswith("restereo"):
-                oracle_wedge_direction(ctx, f, p.by_frag[f["id"]][1], rp({"fragment": f["id"]}))
+                if p.by_frag[f["id"]][1] is not None:
+                    oracle_wedge_direction(ctx, f, p.by_frag[f["id"]][1], rp({"fragment": f["id"]}))
     # labels: model tie
     ids = {f["id"]: i for i, f in enumerate(d.frags)}
     if d.labels and d.frags:
@@ -239,10 +249,16 @@ def check_file(ctx, path, source, variant, text=None, want_stats=None, session=N
     return d, p
 
 
+def finite(x) -> bool:
+    import numpy as np
+
+    return bool(np.all(np.isfinite(x)))
+
+
 def coords_equal(a, b) -> bool:
     import numpy as np
 
-    return a.shape == b.shape and bool(np.allclose(a, b, atol=COORD_TOL, rtol=0, equal_nan=True))
+    return a is not None and b is not None and a.shape == b.shape and bool(np.allclose(a, b, atol=COORD_TOL, rtol=0, equal_nan=True))
 
 
 def max_dev(a, b) -> float:
@@ -388,7 +404,7 @@ def mirror_check(ctx, source, base, mir, text=None):
             ctx.violation("C13:mirror:constitution-changed", f"{source} fragment {fid}: {diff}", replay_of(source, "mirror", {"fragment": fid}, text))
             continue
         quads = L.centres(None, c0)
-        if not quads:
+        if not quads or x0 is None or x1 is None:
             ctx.case(f"mirror:{source}:{fid}", nontrivial=False)
             continue
         todo.append((fid, c0, quads, nstereo, x0, x1))
@@ -642,6 +658,138 @@ def synth_labels(rng):
 
 
 # --------------------------------------------------------------------------------------
+# process level: fresh interpreters, hash seeds, parse - drop - parse sequences
+# --------------------------------------------------------------------------------------
+CHILD_TIMEOUT = 300
+
+
+def start_child(files, hashseed):
+    """a fresh interpreter parsing `files` in this order (hard timeout when collected)"""
+    import subprocess
+    from harness.common import VERIF, repo_python
+
+    env = dict(os.environ)
+    env["PYTHONHASHSEED"] = str(hashseed)
+    env["PYTHONWARNINGS"] = "ignore"
+    return subprocess.Popen([repo_python(), str(VERIF / "harness" / "c13_child.py"), str(VERIF)] + [str(f) for f in files],
+                            stdout=subprocess.PIPE, stderr=subprocess.PIPE, text=True, env=env)
+
+
+def collect_child(proc):
+    import subprocess
+
+    try:
+        out, err = proc.communicate(timeout=CHILD_TIMEOUT)
+    except subprocess.TimeoutExpired:
+        proc.kill()
+        proc.communicate()
+        return None, "timeout"
+    if proc.returncode != 0:
+        return None, (err or "")[-600:]
+    try:
+        return json.loads(out[out.index("{"):]), None
+    except ValueError:
+        return None, "unparsable output: " + out[:200]
+
+
+def snapshot_of(parsed):
+    from harness import c13_child
+
+    return json.loads(json.dumps(c13_child.snapshot(parsed)))
+
+
+def diff_snapshots(a, b):
+    """first difference between two snapshots of one drawing (coordinates within COORD_TOL), or None"""
+    import numpy as np
+
+    def arr(h):
+        return None if h is None else np.frombuffer(bytes.fromhex(h), dtype="float64")
+
+    if a["resolved"] != b["resolved"]:
+        k = next(k for k in set(a["resolved"]) | set(b["resolved"]) if a["resolved"].get(k) != b["resolved"].get(k))
+        return f"label {k!r} resolves to fragment {a['resolved'].get(k)} vs {b['resolved'].get(k)}"
+    for part in ("frags", "keys"):
+        if set(a[part]) != set(b[part]):
+            return f"{part} listed differ"
+        for k in a[part]:
+            ca, cb = a[part][k], b[part][k]
+            if ca[0] != cb[0]:
+                return f"{part[:-1]} {k!r}: constitution differs"
+            xa, xb = arr(ca[1]), arr(cb[1])
+            if (xa is None) != (xb is None) or (xa is not None and (xa.shape != xb.shape or not np.allclose(xa, xb, atol=COORD_TOL, rtol=0, equal_nan=True))):
+                dev = float(np.nanmax(np.abs(xa - xb))) if xa is not None and xb is not None and xa.shape == xb.shape and xa.size else float("nan")
+                return f"{part[:-1]} {k!r}: coordinates differ by up to {dev:.3g}"
+            if part == "keys" and ca[2] != cb[2]:
+                return f"label {k!r}: name {ca[2]!r} vs {cb[2]!r}"
+    return None
+
+
+def process_level_checks(ctx, files):
+    """(e) THE PARSE OF A DRAWING DOES NOT DEPEND ON THE PROCESS IT HAPPENS IN:
+    reference = each drawing parsed alone in a fresh interpreter (PYTHONHASHSEED=0);
+    * fresh interpreters under other hash seeds (1..4 and `random`) parsing all the drawings one after the other must
+      give the same molecules, coordinates and label -> fragment;
+    * in THIS process the drawings are parsed, dropped (garbage collected) and parsed again in several orders — each
+      parse must equal the reference (no state may survive a dropped CDXMLFile)."""
+    import gc
+
+    files = [Path(f) for f in files]
+    refs_p = [(f, start_child([f], 0)) for f in files]
+    seeds = ["1", "2", "random"] if ctx.quick() else ["1", "2", "3", "4", "random", "random"]
+    order2 = list(reversed(files))
+    multi_p = [(hs, start_child(files if i % 2 == 0 else order2, hs)) for i, hs in enumerate(seeds)]
+    refs = {}
+    for f, pr in refs_p:
+        snap, err = collect_child(pr)
+        if snap is None:
+            ctx.disagree("fresh interpreter could not parse a drawing", str(f), err, "a snapshot")
+            continue
+        refs[str(f)] = snap[str(f)]
+    for hs, pr in multi_p:
+        snap, err = collect_child(pr)
+        ctx.count("process:hash-seed-runs")
+        if snap is None:
+            ctx.disagree("fresh interpreter could not parse the drawings", f"PYTHONHASHSEED={hs}", err, "snapshots")
+            continue
+        for f in files:
+            if str(f) not in refs:
+                continue
+            d = diff_snapshots(refs[str(f)], snap[str(f)])
+            ctx.case(f"process:hashseed:{hs}:{f.name}", nontrivial=True)
+            if d:
+                ctx.violation("C13:process:depends-on-hash-seed-or-earlier-parses",
+                              f"{rel(f)} parsed in a fresh interpreter with PYTHONHASHSEED={hs} (after other drawings) differs from the same file "
+                              f"parsed alone with PYTHONHASHSEED=0: {d}", replay_of(rel(f), "process", {"hashseed": hs, "files": [rel(x) for x in files], "diff": d}))
+                break
+    # parse - drop - parse in this process, several orders
+    rng = ctx.rng
+    orders = [list(files), list(reversed(files))]
+    for _ in range(1 if ctx.quick() else 4):
+        o = list(files)
+        rng.shuffle(o)
+        orders.append(o)
+    found = False
+    for oi, order in enumerate(orders):
+        for f in order:
+            if str(f) not in refs or found:
+                continue
+            with warnings.catch_warnings():
+                warnings.simplefilter("ignore")
+                p = Parsed(f)
+            snap = snapshot_of(p)
+            del p
+            gc.collect()
+            ctx.case(f"process:sequence:{oi}:{f.name}", nontrivial=True)
+            ctx.count("process:parse-drop-parse")
+            d = diff_snapshots(refs[str(f)], snap)
+            if d:
+                ctx.violation("C13:process:parse-depends-on-earlier-parses",
+                              f"{rel(f)} parsed in a process that had parsed and dropped other drawings before differs from the same file parsed "
+                              f"in a fresh interpreter: {d}", replay_of(rel(f), "process", {"order": [rel(x) for x in order], "diff": d}))
+                found = True
+
+
+# --------------------------------------------------------------------------------------
 def run(ctx):
     from harness.common import REPO, VERIF
 
@@ -685,8 +833,15 @@ def run(ctx):
         p.write_text(t)
         sources.append((f"synthetic-labels-{i}", p, t))
 
-    for si, (source, path, text) in enumerate(sources):
-        ctx.check_deadline()
+    # (e) process level: chosen drawings with several non-commuting stereo marks, nested labels and many labels
+    fdir = REPO / "molli" / "files"
+    chosen = [fdir / n for n in ("BOX_cores.cdxml", "parser_demo2.cdxml", "parser_demo.cdxml", "charges_mult.cdxml")]
+    if not ctx.quick():
+        chosen += [p for p in sorted(fdir.glob("*.cdxml")) if p not in chosen] + [p for (_, p, t) in sources if t is not None][:6]
+    chosen = [p for p in chosen if Path(p).exists()]
+    process_level_checks(ctx, chosen)
+
+    def one_source(si, source, path, text):
         base = check_file(ctx, path, source, "original", text)
         d0 = base[0]
         if si < 2:
@@ -745,6 +900,19 @@ def run(ctx):
         for f in work.glob(f"{stem}_*.cdxml"):
             f.unlink()
 
+    for si, (source, path, text) in enumerate(sources):
+        ctx.check_deadline()
+        try:
+            one_source(si, source, path, text)
+        except (ValueError, KeyError, IndexError, TypeError, AttributeError, ZeroDivisionError, RuntimeError) as ex:
+            # whatever the implementation returned could not even be examined: a broken correspondence, with a verdict
+            import traceback
+
+            ctx.disagree("the result of parsing a drawing could not be examined", {"source": source},
+                         "".join(traceback.format_exception(ex))[-900:], "a molecule per fragment")
+    # ... and again after this process has parsed (and dropped) hundreds of drawings
+    process_level_checks(ctx, chosen[:2] if ctx.quick() else chosen)
+
 
 # --------------------------------------------------------------------------------------
 def replay(ctx, path):
@@ -774,6 +942,19 @@ def replay(ctx, path):
         files = [("drawing", p), ("stereo marks mirrored", L.variant_mirror(L.Drawing(p), work / "replay_mirror.cdxml"))]
     elif src.startswith("repo:") and "cdxml_text" not in r and str(r.get("variant")) == "mirror":
         files = [("stereo marks mirrored", L.variant_mirror(L.Drawing(p), work / "replay_mirror.cdxml"))]
+    if str(r.get("variant")) == "process":
+        names = r.get("files") or r.get("order") or [src]
+        files = [REPO / n[5:] if n.startswith("repo:") else Path(n) for n in names]
+        target = REPO / src[5:] if src.startswith("repo:") else Path(src)
+        ref, err = collect_child(start_child([target], 0))
+        hs = r.get("hashseed", "random")
+        other, err2 = collect_child(start_child(files, hs))
+        if ref is None or other is None:
+            print("child failed:", err or err2)
+            return 0
+        print(f"{src}: alone in a fresh interpreter (PYTHONHASHSEED=0)  vs  after {[Path(f).name for f in files]} with PYTHONHASHSEED={hs}:")
+        print("  ", diff_snapshots(ref[str(target)], other[str(target)]) or "identical")
+        return 0
     if r.get("session"):
         fresh, sess = Parsed(p), Parsed(p, session=True)
         if "label" in r:
